@@ -1,7 +1,9 @@
 (* C20 - standard errors are the scaled quadratic form of the descriptors.
-   Statements only (lemmas in Thermo/SE_proofs.v). *)
+   Statements only (lemmas in Thermo/SE_proofs.v, Lib/Psd_cert.v).  The hypothesis 0 <= x'Mx of C20_se_value is DISCHARGED for
+   the shipped libraries: their regenerated matrices carry a kernel-checked certificate of positive semi-definiteness (C14). *)
 From Coq Require Import List NArith Bool Reals Lra Permutation.
-From PG Require Import Common.Strs Thermo.Num Thermo.Estimate Thermo.SE_proofs.
+From Coq Require Import ZArith.
+From PG Require Import Common.Strs Thermo.Num Thermo.Estimate Thermo.SE_proofs Lib.Psd Lib.Psd_cert Gen.UqMats.
 Import ListNotations.
 Local Open Scope R_scope.
 
@@ -51,3 +53,12 @@ Example C20_example :
   count_vector (K:=Rops) [[65%N]; [66%N]] [([66%N], 2); ([65%N], 3)] = Ok [3; 2]
   /\ quad_form (K:=Rops) [3; 2] [[1; 0]; [0; 1]] = 3 * (1 * 3 + (0 * 2 + 0)) + (2 * (0 * 3 + (1 * 2 + 0)) + 0).
 Proof. split; reflexivity. Qed.
+
+(* for every shipped library with uncertainty data (matrix = regenerated integers / 2^s), every mapping over its basis and every
+   RMSE value: the standard error is defined - SE^2 = RMSE^2 * x'Mx is non-negative *)
+Theorem C20_shipped_se_square_nonneg : forall kv, In kv uq_all ->
+  let '(n, m, M, L) := snd kv in
+  forall s basis g rmse v, (0 <= s)%Z -> length basis = n ->
+  se_square (K:=Rops) rmse basis (uq_real s M) g = Ok v -> 0 <= v.
+Proof. exact uq_se_square_nonneg. Qed.
+Print Assumptions C20_shipped_se_square_nonneg.
